@@ -3401,11 +3401,12 @@ class HasTraits(CHasTraits, metaclass=MetaHasTraits):
             return
 
         # Otherwise the local copy of the delegate value was deleted, restore
-        # the delegate listener (unless it's already there):
+        # the delegate listener (unless it's already there, or the delegate
+        # was declared with ``listenable=False`` and never had one):
         if name not in dict:
-            self._init_trait_delegate_listener(
-                name, 0, self.__class__.__listener_traits__[name][1]
-            )
+            listener = self.__class__.__listener_traits__.get(name)
+            if listener is not None:
+                self._init_trait_delegate_listener(name, 0, listener[1])
 
     def _init_trait_observers(self):
         """ Initialize observers prior to setting object state.
